@@ -1407,6 +1407,10 @@ class Store:
                 mother_processes = self.get_path(mother_path).get_processes()
                 processes = copy.deepcopy(mother_processes)
                 processes = processes or {}
+                # ... and its steps, which get_processes() leaves out
+                mother_steps = self.get_path(mother_path).get_steps()
+                deep_merge_check(
+                    processes, copy.deepcopy(mother_steps) or {})
 
             # get the daughter topology
             if 'topology' in daughter:
